@@ -58,10 +58,64 @@ class CoopLock:
         self._l = _real_allocate()
 
 
+class CoopRLock:
+    """Drop-in for threading.RLock(): re-entrant, owned by a thread."""
+
+    def __init__(self):
+        self._l = _real_allocate()
+        self._owner = None
+        self._count = 0
+
+    def acquire(self, blocking=True, timeout=-1):
+        me_id = _thread.get_ident()
+        if self._owner == me_id:
+            self._count += 1
+            return True
+        s = _CURRENT
+        me = s.me() if s is not None else None
+        if me is None:
+            ok = self._l.acquire(blocking, timeout)
+        else:
+            while True:
+                ok = self._l.acquire(False)
+                if ok or not blocking:
+                    break
+                s.blocked(me, self)
+        if ok:
+            self._owner = me_id
+            self._count = 1
+        return ok
+
+    def release(self):
+        if self._owner != _thread.get_ident():
+            raise RuntimeError("cannot release un-acquired lock")
+        self._count -= 1
+        if self._count == 0:
+            self._owner = None
+            self._l.release()
+
+    def locked(self):
+        return self._l.locked()
+
+    __enter__ = acquire
+
+    def __exit__(self, *a):
+        self.release()
+
+    def _at_fork_reinit(self):
+        self._l = _real_allocate()
+        self._owner = None
+        self._count = 0
+
+    def _is_owned(self):
+        return self._owner == _thread.get_ident()
+
+
 class _ThreadingProxy:
-    """Stands in for the `threading` module inside labrea's modules: Lock() is cooperative."""
+    """Stands in for the `threading` module inside labrea's modules: Lock() / RLock() are cooperative."""
 
     Lock = CoopLock
+    RLock = CoopRLock
 
     def __getattr__(self, name):
         return getattr(threading, name)
@@ -75,7 +129,10 @@ def install_coop_locks(import_labrea):
     import pkgutil
 
     real = threading.Lock
+    real_r = threading.RLock
+    rlock_type = type(real_r())
     threading.Lock = CoopLock
+    threading.RLock = CoopRLock
     try:
         labrea = import_labrea()
         for m in pkgutil.iter_modules(labrea.__path__):
@@ -83,6 +140,7 @@ def install_coop_locks(import_labrea):
                 importlib.import_module("labrea." + m.name)
     finally:
         threading.Lock = real
+        threading.RLock = real_r
     proxy = _ThreadingProxy()
     lock_type = type(_real_allocate())
     for name, mod in list(sys.modules.items()):
@@ -92,9 +150,13 @@ def install_coop_locks(import_labrea):
                     setattr(mod, attr, proxy)
                 elif val is real:
                     setattr(mod, attr, CoopLock)
+                elif val is real_r:
+                    setattr(mod, attr, CoopRLock)
                 elif isinstance(val, lock_type):
                     # labrea was imported before the patch (forked worker): swap the lock object
                     setattr(mod, attr, CoopLock())
+                elif isinstance(val, rlock_type):
+                    setattr(mod, attr, CoopRLock())
     return labrea
 
 
@@ -125,6 +187,7 @@ class Scheduler:
         self.main_gate = _real_allocate()
         self.main_gate.acquire()
         self.deadlock = False
+        self.stalled = False
         self.total_steps = 0
         self.max_steps = max_steps
         self.fired = []  # preemptions that actually happened
@@ -296,7 +359,10 @@ class Scheduler:
             for t in self.ts.values():
                 t.thread.join(2)
             if not ok:
+                # nobody finished and nobody reported "blocked": a thread waits on something the
+                # scheduler does not control (machinery limit, not a verdict about labrea)
                 self.deadlock = True
+                self.stalled = True
         finally:
             self._uninstrument()
             _CURRENT = None
